@@ -1,6 +1,7 @@
 package world
 
 import (
+	"sync"
 
 	"path/filepath"
 	"os/exec"
@@ -119,6 +120,36 @@ type APIServer struct {
 	fromIP string // DialFrom: source address of the next connection
 }
 
+var (
+	hostTrustOnce sync.Once
+	hostTrustPKI  *PKI
+	hostTrustErr  error
+)
+
+// HostTrust gives this process - and every program it starts - an operating-system trust store of its own: SSL_CERT_FILE names a
+// file with ONE "public" authority, SSL_CERT_DIR an empty directory.  The configured client authority of a server is never this
+// one; a certificate issued by it is what "some authority the machine happens to trust" looks like (credential kind publicca-X).
+func HostTrust() (*PKI, error) {
+	hostTrustOnce.Do(func() {
+		hostTrustPKI, hostTrustErr = NewPKI("a public CA of the host trust store")
+		if hostTrustErr != nil {
+			return
+		}
+		var dir string
+		if dir, hostTrustErr = os.MkdirTemp("", "hosttrust"); hostTrustErr != nil {
+			return
+		}
+		f := filepath.Join(dir, "ca-certificates.crt")
+		if hostTrustErr = os.WriteFile(f, hostTrustPKI.CAPEM, 0o644); hostTrustErr != nil {
+			return
+		}
+		_ = os.MkdirAll(filepath.Join(dir, "certs"), 0o755)
+		os.Setenv("SSL_CERT_FILE", f)
+		os.Setenv("SSL_CERT_DIR", filepath.Join(dir, "certs"))
+	})
+	return hostTrustPKI, hostTrustErr
+}
+
 // StartAPIServer builds a world (wallets W1 for client c1, W2 for client c2, distributed wallet DW for both) and
 // serves it with the repository's gRPC service, TLS material minted on the spot.
 func StartAPIServer(ctx context.Context, log *Log) (*APIServer, error) {
@@ -129,6 +160,9 @@ func StartAPIServer(ctx context.Context, log *Log) (*APIServer, error) {
 // "samechain" (that leaf followed by the CA certificate), "foreignchain" (a leaf of the OTHER authority followed by that
 // authority's certificate).  The configured client CA is the same in all three.
 func StartAPIServerMode(ctx context.Context, log *Log, mode string) (*APIServer, error) {
+	if _, err := HostTrust(); err != nil {
+		return nil, err
+	}
 	pki, err := NewPKI("verif CA")
 	if err != nil {
 		return nil, err
@@ -244,6 +278,9 @@ func (a *APIServer) Alive() bool {
 // in-process world, certificate files for the given server set-up, a dirk.yml with the same permissions, peers and unlocker
 // passphrases - and starts the real dirk binary (main.go's own configuration reading and wiring) on a free local port.
 func StartExternalDirk(ctx context.Context, log *Log, mode string, binary string) (*APIServer, error) {
+	if _, err := HostTrust(); err != nil { // (the started program inherits SSL_CERT_FILE / SSL_CERT_DIR)
+		return nil, err
+	}
 	pki, err := NewPKI("verif CA")
 	if err != nil {
 		return nil, err
@@ -434,6 +471,12 @@ func (a *APIServer) dialPort(ctx context.Context, cred string, port int) (*grpc.
 				if tcfg, err = a.forgedTicketConfig(ctx, c); err == nil {
 					return grpc.NewClient(a.Addr, grpc.WithTransportCredentials(credentials.NewTLS(tcfg)))
 				}
+			}
+		case strings.HasPrefix(cred, "publicca-"):
+			// issued by the authority of the host's trust store (HostTrust), which is not the configured client authority
+			var pub *PKI
+			if pub, err = HostTrust(); err == nil {
+				c, err = leaf(pub, strings.TrimPrefix(cred, "publicca-"), false, false)
 			}
 		case strings.HasPrefix(cred, "otherca-"):
 			c, err = leaf(a.Other, strings.TrimPrefix(cred, "otherca-"), false, false)
